@@ -246,6 +246,10 @@ func newNode() *topicNode {
 
 func (node *topicNode) addClients(ans map[string]byte) {
 	for client, qos := range node.clients {
+		// a client with several matching subscriptions gets the highest QoS among them
+		if old, ok := ans[client]; ok && old > qos {
+			continue
+		}
 		ans[client] = qos
 	}
 }
